@@ -87,6 +87,10 @@ var npmRanges = []string{"^1.0.0", "~1.1.0", ">=1.0.0 <2.0.0", "1.x", "*", "1.0.
 
 type NPMOpts struct {
 	Aliases bool
+	// Ties adds versions that differ only in build metadata or a leading v:
+	// equal precedence, different strings (insertion-order sensitivity of
+	// sorting shows only then).
+	Ties bool
 }
 
 func NPMUniverse(o NPMOpts) *rapid.Generator[Universe] {
@@ -99,6 +103,15 @@ func NPMUniverse(o NPMOpts) *rapid.Generator[Universe] {
 		vlists := make([][]string, n)
 		for i := 0; i < n; i++ {
 			vlists[i] = pickDistinct(t, npmVersionPool, rapid.IntRange(1, 5).Draw(t, "nv"), "versions")
+			if o.Ties && rapid.IntRange(0, 2).Draw(t, "ties") == 0 {
+				base := vlists[i][len(vlists[i])-1]
+				if !strings.ContainsAny(base, "+") {
+					vlists[i] = append(vlists[i], base+"+build.1")
+					if rapid.Bool().Draw(t, "ties2") {
+						vlists[i] = append(vlists[i], base+"+build.2")
+					}
+				}
+			}
 		}
 		aimed := func(target int) string {
 			v := rapid.SampledFrom(vlists[target]).Draw(t, "aim")
@@ -381,6 +394,69 @@ var PyMarkers = []PyMarker{
 	{`python_full_version < "3.9.0"`, "false"},
 }
 
+// injectPyPIScenario overlays one of a few resolver stress shapes on a random
+// universe, with roles assigned to random packages: an extra requested only
+// after the package was pinned; the same with a conflict behind the extra that
+// forces backtracking past the requester; a diamond conflict that forces a
+// downgrade. The rest of the universe stays random, so the shapes occur inside
+// arbitrary contexts rather than as fixed examples.
+func injectPyPIScenario(t *rapid.T, u *Universe) {
+	idx := rapid.Permutation(seqInts(len(u.Pkgs))).Draw(t, "roles")
+	P, R, Z, Q, root := &u.Pkgs[idx[0]], &u.Pkgs[idx[1]], &u.Pkgs[idx[2]], &u.Pkgs[idx[3]], &u.Pkgs[idx[4]]
+	set := func(v *UVer, target, spec, typ string) {
+		for i := range v.Reqs {
+			if v.Reqs[i].Name == target {
+				v.Reqs[i].Req, v.Reqs[i].Type = spec, typ
+				return
+			}
+		}
+		v.Reqs = append(v.Reqs, UReq{Name: target, Req: spec, Type: typ})
+	}
+	hi := func(p *UPkg) *UVer { return &p.Versions[len(p.Versions)-1] }
+	switch rapid.IntRange(0, 2).Draw(t, "scenariokind") {
+	case 0, 1: // late extra (1: with a conflict behind it)
+		for i := range root.Versions {
+			set(&root.Versions[i], P.Name, "", "")
+			set(&root.Versions[i], R.Name, "", "")
+		}
+		for i := range R.Versions {
+			set(&R.Versions[i], P.Name, "", "EnabledDependencies x")
+		}
+		for i := range P.Versions {
+			set(&P.Versions[i], Z.Name, "", `Environment "extra == \"x\""`)
+		}
+		if len(Q.Versions) >= 2 && len(R.Versions) >= 2 {
+			// versions are listed in no particular order; pin two different ones
+			set(hi(R), Q.Name, "=="+Q.Versions[0].Version, "")
+			for i := range Z.Versions {
+				set(&Z.Versions[i], Q.Name, "=="+Q.Versions[1].Version, "")
+			}
+		}
+	case 2: // diamond conflict
+		if len(Q.Versions) >= 2 {
+			for i := range root.Versions {
+				set(&root.Versions[i], P.Name, "", "")
+				set(&root.Versions[i], R.Name, "", "")
+			}
+			for i := range P.Versions {
+				set(&P.Versions[i], Q.Name, "=="+Q.Versions[1].Version, "")
+			}
+			set(hi(P), Q.Name, "=="+Q.Versions[0].Version, "")
+			for i := range R.Versions {
+				set(&R.Versions[i], Q.Name, "=="+Q.Versions[1].Version, "")
+			}
+		}
+	}
+}
+
+func seqInts(n int) []int {
+	s := make([]int, n)
+	for i := range s {
+		s[i] = i
+	}
+	return s
+}
+
 // inheritReqs makes successive versions of a package resemble each other, as
 // releases of a real package do: about half of the versions after the first
 // start from the previous version's requirement list (textually identical
@@ -417,6 +493,7 @@ func PyPIUniverse() *rapid.Generator[Universe] {
 		n := npkgs(t)
 		u := Universe{System: "pypi"}
 		density := rapid.IntRange(1, 3).Draw(t, "density")
+		extrasHeavy := rapid.IntRange(0, 3).Draw(t, "extrasheavy") == 0
 		for i := 0; i < n; i++ {
 			p := UPkg{Name: names[i]}
 			vs := pickDistinct(t, pypiVersionPool, rapid.IntRange(1, 5).Draw(t, "nv"), "versions")
@@ -429,12 +506,27 @@ func PyPIUniverse() *rapid.Generator[Universe] {
 					}
 					r := UReq{Name: tn, Req: rapid.SampledFrom(pypiSpecs).Draw(t, "spec")}
 					var parts []string
-					if rapid.IntRange(0, 9).Draw(t, "hasmarker") < 3 {
-						m := rapid.SampledFrom(PyMarkers).Draw(t, "marker")
-						parts = append(parts, fmt.Sprintf("Environment %q", m.Text))
-					}
-					if rapid.IntRange(0, 9).Draw(t, "hasextras") < 2 {
-						parts = append(parts, "EnabledDependencies "+rapid.SampledFrom([]string{"x", "y", "x,y"}).Draw(t, "extras"))
+					if extrasHeavy {
+						// a quarter of the universes: extras requested and extra-guarded
+						// requirements everywhere, pinned specifiers (conflicts, backtracking)
+						if rapid.IntRange(0, 9).Draw(t, "pin") < 5 {
+							r.Req = rapid.SampledFrom([]string{"==1.0", "==1.1", "==2.0", "==1.2", "<2.0", ">=2.0"}).Draw(t, "pinspec")
+						}
+						if rapid.IntRange(0, 9).Draw(t, "hasmarker") < 5 {
+							m := rapid.SampledFrom([]PyMarker{PyMarkers[6], PyMarkers[7], PyMarkers[8], PyMarkers[6]}).Draw(t, "marker")
+							parts = append(parts, fmt.Sprintf("Environment %q", m.Text))
+						}
+						if rapid.IntRange(0, 9).Draw(t, "hasextras") < 5 {
+							parts = append(parts, "EnabledDependencies "+rapid.SampledFrom([]string{"x", "x", "y", "x,y"}).Draw(t, "extras"))
+						}
+					} else {
+						if rapid.IntRange(0, 9).Draw(t, "hasmarker") < 3 {
+							m := rapid.SampledFrom(PyMarkers).Draw(t, "marker")
+							parts = append(parts, fmt.Sprintf("Environment %q", m.Text))
+						}
+						if rapid.IntRange(0, 9).Draw(t, "hasextras") < 2 {
+							parts = append(parts, "EnabledDependencies "+rapid.SampledFrom([]string{"x", "y", "x,y"}).Draw(t, "extras"))
+						}
 					}
 					r.Type = strings.Join(parts, " ")
 					uv.Reqs = append(uv.Reqs, r)
@@ -443,6 +535,9 @@ func PyPIUniverse() *rapid.Generator[Universe] {
 			}
 			inheritReqs(t, &p)
 			u.Pkgs = append(u.Pkgs, p)
+		}
+		if len(u.Pkgs) >= 5 && rapid.IntRange(0, 7).Draw(t, "scenario") == 0 {
+			injectPyPIScenario(t, &u)
 		}
 		return u
 	})
